@@ -5,6 +5,7 @@ THEOREMS = ["C15_prefix", "C15_only_part_written", "C15_compressed", "C15_export
 VARIANT = "plain"
 PRE = {"out2": b"an older, complete file", "out2.gz": None, "out2.xz": None}
 
+EXTRA_PROPERTY_FILES = ("Properties_writers",)   # the bodies of the output writers' functions as they are now (translator/writers.py) against what the model was written after
 def scenarios(tier, rng):
     rnd = lambda n: bytes(rng.getrandbits(8) for _ in range(n))
     base = [
